@@ -4,4 +4,6 @@ set -e
 cd "$(dirname "$0")"
 command -v verus >/dev/null
 mkdir -p build evidence replays
+# pre-build the replay crate (used by the bounded stand-in of C06 and by the thorough tier); a failure here is not fatal
+(cd replay && RUSTFLAGS='--cfg sv_parser_verif' CARGO_TARGET_DIR=/verif/replay/target CARGO_NET_OFFLINE=true cargo build --offline >/dev/null 2>&1) || true
 exit 0
